@@ -228,6 +228,17 @@ func genQOps(rc *RunCtx, c QCfg) []Op {
 		if o.Kind != "adv" && o.Kind != "stats" && o.Kind != "restart" && o.Kind != "sub" && o.Kind != "cls" && r.Chance(w.burst, 100) {
 			o.Burst = true
 		}
+		if o.Kind == "admin" && (o.S == "delete_channel" || o.S == "delete_topic") && (rc.Prop == "C08" || rc.Prop == "ALL") && r.Chance(1, 3) {
+			// the same object is asked for again while its deletion is still running
+			o.Burst = true
+			add(o)
+			if r.Chance(1, 2) {
+				o = Op{Kind: "admin", S: "create_channel", A: o.A, B: o.B}
+			} else {
+				o = Op{Kind: "pub", A: 0, B: o.A}
+			}
+			o.Burst = r.Chance(1, 2)
+		}
 		add(o)
 		if o.Kind == "sub" && (rc.Prop == "C08" || rc.Prop == "C01" || rc.Prop == "ALL") && r.Chance(1, 5) {
 			// a later subscribe to the same topic while everybody else on it leaves
@@ -555,6 +566,32 @@ func (w *qWorld) afterSettle() {
 	// administrative operations that ran concurrently with anything else: the
 	// resulting registry state depends on the interleaving, so it is adopted
 	// from /stats (existence and paused flags only; counters become unknown)
+	// a channel deleted and asked for again at the same time (and nothing else
+	// going on): whichever came first, what is there afterwards is empty
+	if len(w.burstOps) >= 2 && w.enforce["C08"] && w.n != nil {
+		only := true
+		var del *Op
+		for i, o := range w.burstOps {
+			if o.Kind != "admin" || (o.S != "delete_channel" && o.S != "create_channel") || o.A != w.burstOps[0].A || o.B != w.burstOps[0].B {
+				only = false
+			}
+			if o.S == "delete_channel" {
+				del = &w.burstOps[i]
+			}
+		}
+		if only && del != nil {
+			topic, ch := w.topicName(del.A), w.chanName(del.B)
+			// (the delete found the channel: the topic's backlog had been flowing into it)
+			if t := w.topics[topic]; t != nil && !t.Paused && !t.ExistUnknown && w.burstAdmin["delete_channel|"+topic+"/"+ch] == 200 {
+				if doc, _ := w.getStats(""); doc != nil {
+					if sc := doc.channel(topic, ch); sc != nil && sc.Depth+sc.InFlightCount+sc.DeferredCount != 0 {
+						w.violate("C08", "recreated-channel-not-empty", "channel %s/%s was deleted and created again concurrently; afterwards it holds depth %d, in flight %d, deferred %d", topic, ch, sc.Depth, sc.InFlightCount, sc.DeferredCount)
+					}
+					w.rc.Probe("delete_create_race_checked")
+				}
+			}
+		}
+	}
 	if len(w.burstOps) >= 2 {
 		for _, o := range w.burstOps {
 			if o.Kind != "admin" {
@@ -588,6 +625,7 @@ func (w *qWorld) afterSettle() {
 		}
 	}
 	w.burstOps = nil
+	w.burstAdmin = nil
 	w.resolveUncertain()
 	// RDY outside [0, max] must have been refused with a fatal E_INVALID (C03)
 	for _, co := range w.badRdy {
